@@ -39,7 +39,7 @@ def cfg_parts(cfgname):
 def build_binary(md, cfgname, extra_flags=()):
     """compile (or fetch from the cache) the harness binary of md under cfgname; returns (path, seconds, error)"""
     base, be, fct, traits, pol = cfg_parts(cfgname)
-    src = msmgen.gen_cxx(md, policy=pol)
+    src = msmgen.gen_cxx(md, policy=pol, introspect="-DH_INTROSPECT" in extra_flags)
     key = hashlib.sha256((repo_hash() + cfgname + " ".join(extra_flags) + src).encode()).hexdigest()[:24]
     d = os.path.join(CACHE, repo_hash())
     os.makedirs(d, exist_ok=True)
